@@ -30,33 +30,33 @@ STAGES = {
             S("bombs", "^TestC08Bombs$", tiers=("thorough",))],
     "C09": [S("regress", "^TestC09Regress$"),
             S("matrix", "^TestC09$", shards=(8, 16)),
-            S("mixed", "^TestC09Mixed$", quick=3000, thorough=30000, shards=(2, 16))],
-    "C10": [S("programs", "^TestC10$", quick=2500, thorough=15000, shards=(4, 16))],
-    "C11": [S("requests", "^TestC11$", quick=6000, thorough=40000, shards=(2, 16)),
-            S("server", "^TestC11Server$", quick=400, thorough=4000, shards=(1, 4)),
-            S("fuzz", "^$", tiers=("thorough",), shards=(1, 1), fuzz={"target": "^FuzzC11$", "time": {"quick": "10s", "thorough": "120s"}}, timeout=("10m", "30m"))],
+            S("mixed", "^TestC09Mixed$", quick=3000, thorough=200000, shards=(2, 16))],
+    "C10": [S("programs", "^TestC10$", quick=2500, thorough=150000, shards=(4, 16))],
+    "C11": [S("requests", "^TestC11$", quick=6000, thorough=200000, shards=(2, 16)),
+            S("server", "^TestC11Server$", quick=400, thorough=20000, shards=(1, 4)),
+            S("fuzz", "^$", tiers=("thorough",), shards=(1, 1), fuzz={"target": "^FuzzC11$", "time": {"quick": "10s", "thorough": "300s"}}, timeout=("10m", "30m"))],
     "C12": [S("origins", "^TestC12$", quick=30000, thorough=200000, shards=(2, 16)),
-            S("fuzz", "^$", tiers=("thorough",), shards=(1, 1), fuzz={"target": "^FuzzC12$", "time": {"quick": "10s", "thorough": "120s"}}, timeout=("10m", "30m"))],
-    "C13": [S("responses", "^TestC13$", quick=8000, thorough=40000, shards=(2, 16)),
+            S("fuzz", "^$", tiers=("thorough",), shards=(1, 1), fuzz={"target": "^FuzzC12$", "time": {"quick": "10s", "thorough": "300s"}}, timeout=("10m", "30m"))],
+    "C13": [S("responses", "^TestC13$", quick=8000, thorough=200000, shards=(2, 16)),
             S("keys", "^TestC13Keys$")],
     "C14": [S("regress", "^TestC14Regress$|^TestC14LibLib$"),
             S("server-enum", "^TestC14Server$", shards=(4, 16)),
             S("client-enum", "^TestC14Client$", shards=(1, 4)),
-            S("server-lists", "^TestC14ServerLists$", quick=2500, thorough=20000, shards=(3, 16)),
-            S("interleaved", "^TestC14Interleaved$", quick=600, thorough=6000, shards=(2, 16))],
-    "C15": [S("outbound", "^TestC15$", quick=3000, thorough=20000, shards=(3, 16)),
-            S("inbound", "^TestC15Inbound$", quick=1500, thorough=10000, shards=(3, 16))],
+            S("server-lists", "^TestC14ServerLists$", quick=2500, thorough=60000, shards=(3, 16)),
+            S("interleaved", "^TestC14Interleaved$", quick=600, thorough=20000, shards=(2, 16))],
+    "C15": [S("outbound", "^TestC15$", quick=3000, thorough=150000, shards=(3, 16)),
+            S("inbound", "^TestC15Inbound$", quick=1500, thorough=80000, shards=(3, 16))],
     "C18": [S("regress", "^TestC18Regress$"),
-            S("stream", "^TestC18$", quick=600, thorough=5000, shards=(4, 16)),
-            S("deadlines", "^TestC18Deadlines$", quick=3000, thorough=20000, shards=(2, 16))],
+            S("stream", "^TestC18$", quick=600, thorough=30000, shards=(4, 16)),
+            S("deadlines", "^TestC18Deadlines$", quick=3000, thorough=100000, shards=(2, 16))],
     "C16": [S("regress", "^TestC16Regress$"),
-            S("schedules", "^TestC16$", quick=3000, thorough=20000, shards=(4, 16)),
-            S("schedules-race", "^TestC16$", quick=300, thorough=3000, shards=(2, 16), race=True)],
+            S("schedules", "^TestC16$", quick=3000, thorough=150000, shards=(4, 16)),
+            S("schedules-race", "^TestC16$", quick=300, thorough=20000, shards=(2, 16), race=True)],
     "C17": [S("grid", "^TestC17$", shards=(4, 16)),
             S("neighbours", "^TestC17Neighbours$|^TestC17Large$")],
     "C01": [S("sweep", "^TestC01Sweep$", shards=(3, 9)),
             S("roundtrip", "^TestC01$", quick=250, thorough=4000, shards=(6, 16), timeout=("15m", "90m"))],
-    "C02": [S("programs", "^TestC02$", quick=1500, thorough=6000, shards=(4, 16))],
+    "C02": [S("programs", "^TestC02$", quick=1500, thorough=200000, shards=(4, 16))],
     "C03": [S("regress", "^TestC03Regress$|^TestC03Flood$"),
             S("structured", "^TestC03$", quick=1500, thorough=10000, shards=(4, 16)),
             S("raw", "^TestC03Raw$", quick=8000, thorough=60000, shards=(4, 16)),
@@ -66,10 +66,10 @@ STAGES = {
             S("concurrent", "^TestC05$", quick=150, thorough=2500, shards=(6, 16), timeout=("15m", "90m")),
             S("concurrent-race", "^TestC05$", quick=40, thorough=800, shards=(4, 16), race=True, timeout=("15m", "90m"))],
     "C06": [S("codes", "^TestC06$", shards=(8, 16)),
-            S("mixed", "^TestC06Mixed$", quick=3000, thorough=20000, shards=(2, 16))],
-    "C19": [S("reads", "^TestC19$", quick=2500, thorough=15000, shards=(3, 16)),
-            S("writes", "^TestC19Write$", quick=800, thorough=5000, shards=(1, 8)),
-            S("concurrent-race", "^TestC19Concurrent$", quick=300, thorough=3000, shards=(2, 16), race=True)],
+            S("mixed", "^TestC06Mixed$", quick=3000, thorough=200000, shards=(2, 16))],
+    "C19": [S("reads", "^TestC19$", quick=2500, thorough=120000, shards=(3, 16)),
+            S("writes", "^TestC19Write$", quick=800, thorough=40000, shards=(1, 8)),
+            S("concurrent-race", "^TestC19Concurrent$", quick=300, thorough=20000, shards=(2, 16), race=True)],
     "C20": [S("lag", "^TestC20Lag$"),
             S("histories", "^TestC20$", quick=120, thorough=1500, shards=(6, 16))],
 }
